@@ -192,6 +192,20 @@ def check_solver_operator(seeds=(0,)):
                 got_solve = float(info['abs_error'])
                 got_res = float(emg3d.solver.residual(emg3d.models.VolumeModel(model, sf), sf, ef, True))
                 cases += 2
+                # the wrapper is linear in the field: the same field at tiny absolute amplitudes, zero source -> residual norm scales with it
+                zero_src = emg3d.Field(grid, frequency=freq)
+                for amp in (1e-12, 1e-18, 1e-24):
+                    cases += 1
+                    small = emg3d.Field(grid, ef.field * amp, frequency=freq)
+                    got_small = float(emg3d.solver.residual(emg3d.models.VolumeModel(model, sf), zero_src, small, True))
+                    r0 = zero_src.copy()
+                    vm0 = emg3d.models.VolumeModel(model, sf)
+                    core.amat_x(r0.fx, r0.fy, r0.fz, small.fx, small.fy, small.fz, vm0.eta_x, vm0.eta_y, vm0.eta_z, vm0.zeta, grid.h[0], grid.h[1], grid.h[2])
+                    want_small = float(np.linalg.norm(r0.field))
+                    if abs(got_small - want_small) > 1e-9 * want_small:
+                        return dict(reproduced=True, cases=cases, clause='solver.residual applies the operator to every field, however small its amplitude (zero source: || A e ||)',
+                                    amplitude=amp, step=what, frequency=freq, got=got_small, expected=want_small, seed=seed,
+                                    how='contracts.c02_concrete.check_solver_operator: solver.residual(vmodel, zero source, amp * field) vs core.amat_x')
                 for name, got in (('solve (abs_error of the initial-residual test)', got_solve), ('solver.residual', got_res)):
                     if abs(got - want) > 1e-9 * want:
                         return dict(reproduced=True, cases=cases, clause='the operator applied by the solver is that of the model given at this call',
